@@ -103,7 +103,7 @@ func (c *Case) Cleanup(fn func()) { c.cleanup = append(c.cleanup, fn) }
 // the case fails.
 func (c *Case) Failf(sig string, format string, a ...any) {
 	msg := fmt.Sprintf(format, a...)
-	if resourceTrouble(msg) {
+	if resourceTrouble(msg) || (strings.Contains(sig, "/liveness/") && portPressure()) {
 		// The sandbox ran out of something (ports, descriptors, disk, memory). That
 		// says nothing about the property: the case is abandoned and counted.
 		c.st.known("environment/resource-exhausted", msg)
@@ -130,6 +130,30 @@ func resourceTrouble(msg string) bool {
 		}
 	}
 	return false
+}
+
+// portPressure reports that most of the sandbox's ephemeral ports sit in
+// TIME_WAIT: connection attempts fail or stall for reasons unrelated to LiteFS,
+// so a missed liveness bound says nothing.
+func portPressure() bool {
+	b, err := os.ReadFile("/proc/net/sockstat")
+	if err != nil {
+		return false
+	}
+	tw := 0
+	for _, line := range strings.Split(string(b), "\n") {
+		f := strings.Fields(line)
+		for i := 0; i+1 < len(f); i++ {
+			if f[0] == "TCP:" && f[i] == "tw" {
+				_, _ = fmt.Sscanf(f[i+1], "%d", &tw)
+			}
+		}
+	}
+	lo, hi := 32768, 60999
+	if r, err := os.ReadFile("/proc/sys/net/ipv4/ip_local_port_range"); err == nil {
+		_, _ = fmt.Sscanf(string(r), "%d %d", &lo, &hi)
+	}
+	return tw*10 > (hi-lo)*6
 }
 
 // Skip abandons the case as invalid (rapid will generate another one).
